@@ -91,6 +91,30 @@ def check_case(ctx, case):
     full = impl.canon_record(rec >> (case["m"] * n))
     if full.seq != wd or denot(full.feats, n) != d_in:
         ctx.fail("rotation by {} x length is not the identity".format(case["m"]), case)
+    # other legal spellings of a record: a feature without location, per-letter values held in a string or a
+    # tuple, a MutableSeq sequence
+    if n >= 1:
+        from Bio.Seq import MutableSeq
+        from Bio.SeqFeature import SeqFeature
+        alt = impl.mk_record(CRec(7, wd, feats, []))
+        alt.seq = MutableSeq(wd)
+        alt.features.insert(len(alt.features) // 2, SeqFeature(None, type="misc_feature", qualifiers={"label": ["noloc"]}))
+        alt.letter_annotations["asstr"] = "".join(chr(65 + (i % 26)) for i in range(n))
+        alt.letter_annotations["astuple"] = tuple(range(n))
+        ro = alt >> k
+        if str(ro.seq) != exp:
+            ctx.fail("a record holding a MutableSeq is not rotated like one holding a Seq (>> {})".format(k), case)
+        nl = [ft for ft in ro.features if ft.qualifiers.get("label") == ["noloc"]]
+        if len(nl) != 1 or nl[0].location is not None:
+            ctx.fail("a feature without location is not carried over unchanged by >> {}".format(k), case)
+        rest = impl.canon_record(impl.CircularRecord(impl.Seq(str(ro.seq)), id="x",
+                                                     features=[ft for ft in ro.features if ft.location is not None]))
+        if denot(rest.feats, n) != shifted(d_in, k, n):
+            ctx.fail("with a location-less feature in the table the other features are not rotated correctly", case)
+        s_, t_ = alt.letter_annotations["asstr"], alt.letter_annotations["astuple"]
+        if list(ro.letter_annotations.get("asstr", "")) != [s_[(i - k) % n] for i in range(n)] or \
+                list(ro.letter_annotations.get("astuple", ())) != [t_[(i - k) % n] for i in range(n)]:
+            ctx.fail("per-letter values held in a string / tuple are not rotated with the sequence by >> {}".format(k), case)
     # the record is curated in place and rotated again: the answer must describe the record as it is now
     if n >= 2:
         from Bio.SeqFeature import SeqFeature, SimpleLocation
